@@ -229,7 +229,28 @@ def run_case(case: dict[str, Any], d: Path) -> dict[str, Any]:
 
         cmd = make_command(case, d)
         res["cmd"] = cmd
-        with mock.patch("gallia.plugins.plugin.load_transport", lambda target: Loader):
+        import contextlib
+        import sqlite3 as _sq
+
+        from gallia.db.handler import DBHandler
+
+        with contextlib.ExitStack() as stack:
+            stack.enter_context(mock.patch("gallia.plugins.plugin.load_transport", lambda target: Loader))
+            fault = case.get("db_close")
+            if fault == "complete":
+                # the final update of the run entry fails (disk full, database locked by another process)
+                async def failing_complete(self: Any, *a: Any, **kw: Any) -> None:
+                    raise _sq.OperationalError("verif: database or disk is full")
+
+                stack.enter_context(mock.patch.object(DBHandler, "complete_run_meta", failing_complete))
+            elif fault == "disconnect":
+                real = DBHandler.disconnect
+
+                async def failing_disconnect(self: Any) -> None:
+                    await real(self)
+                    raise _sq.OperationalError("verif: disk I/O error while closing")
+
+                stack.enter_context(mock.patch.object(DBHandler, "disconnect", failing_disconnect))
             try:
                 res["rc"] = await cmd.entry_point()
             except BaseException as e:  # noqa: BLE001
@@ -401,7 +422,9 @@ def check(case: dict[str, Any]) -> list[tuple[str, str]]:
             out.append((f"C15/db-run-meta-rows/{where}", f"{ctx}: {rm}"))
         else:
             end_time, code, _cfg = rm[0]
-            if end_time is None or code != obs["rc"]:
+            if case.get("db_close") == "complete":
+                pass  # the injected fault is the failure of exactly this update
+            elif end_time is None or code != obs["rc"]:
                 out.append((f"C15/db-run-meta-not-completed/{case['cmd']}", f"{ctx}: run_meta end_time={end_time} exit_code={code}, returned {obs['rc']}"))
     if case["hooks_enabled"]:
         for v in ("pre", "post"):
@@ -435,6 +458,7 @@ def case_s(draw) -> dict[str, Any]:
     return {"cmd": draw(st.sampled_from(CMDS)), "kind": kind, "point": draw(st.sampled_from(POINTS)) if kind != "return" else "main",
             "artifacts": draw(st.booleans()), "db": draw(st.sampled_from(["off", "on", "on", "dir"])), "lock": draw(st.booleans()),
             "hooks_enabled": draw(st.sampled_from([True, True, True, False])), "pre_hook": draw(st.sampled_from(HOOKS)), "post_hook": draw(st.sampled_from(HOOKS)),
+            "db_close": draw(st.sampled_from([None, None, None, "complete", "disconnect"])),
             "rich": draw(st.one_of(st.none(), st.fixed_dictionaries({
                 "pdu": st.binary(min_size=0, max_size=6).map(bytes.hex), "service": st.sampled_from([0x10, 0x22, 0x27, 0x3E]),
                 "ids": st.lists(st.integers(0, 0xFFFF), max_size=4, unique=True).map(sorted), "mask": st.integers(0, 0xFFFF), "count": st.integers(0, 2**31)})))}
@@ -446,7 +470,8 @@ def grid() -> list[dict[str, Any]]:
         for point in (POINTS if kind != "return" else ["main"]):
             for he, pre, post in [(True, "none", "none"), (True, "ok", "ok"), (True, "fail", "ok"), (True, "ok", "fail"), (True, "missing", "missing"), (False, "ok", "fail")]:
                 out.append({"cmd": cmd, "kind": kind, "point": point, "artifacts": art, "db": db, "lock": lock, "hooks_enabled": he, "pre_hook": pre, "post_hook": post,
-                            "rich": {"pdu": "22f190", "service": 0x27, "ids": [1, 16, 255], "mask": 0x7F, "count": 300} if (len(out) % 3 == 0) else None})
+                            "rich": {"pdu": "22f190", "service": 0x27, "ids": [1, 16, 255], "mask": 0x7F, "count": 300} if (len(out) % 3 == 0) else None,
+                            "db_close": [None, "complete", "disconnect"][len(out) % 5 % 3] if db == "on" else None})
     return out
 
 
